@@ -103,4 +103,11 @@ PROPS = {
         trusted_base=COMMON_TB + ['Query.v is a hand model of query.rs (create_roots, resolve_*), query/validation.rs and query/selection.rs validate_type_conditions; tied by RunC06.corr (outcome class Ok / Err / Panic on every valid and edited program, exact emitted modules on the valid ones)', "`applicable` (Properties) is the GraphQL spec's possible-types overlap restricted to the pairs the generator supports (equal, or one a possible concrete type of the other)", "graphql_parser's reading of the rendered documents"],
         assumptions=['the rules are stated on the abstract schema the SDL builder produces (Schema.schema_of_sdl)'],
     ),
+    "C12": dict(
+        coq_props=['Properties/C12.v'],
+        run_modules=['RunC12.v'],
+        harness_cmd='c12',
+        trusted_base=COMMON_TB + ['Dfs.dfs is the model of the visited-set search in schema.rs:398-440 and (after the repair) query/selection.rs contains_fragment; Codegen.input_succs / frag_succs say which edges the code follows; Box placement (input_field_type, push_alias / push_field boxed) is tied by RunGen.gen_corr on every generated graph and pattern', "rustc's sizedness rule, as the oracle RunC12.finite_size states it: Option is inline, Vec and Box are indirections, an alias contains its target (E0072 otherwise); not compiled in this check", 'serde treats Box<T> as T (Serde.v: RBox is transparent)'],
+        assumptions=['spreads name defined fragments (frags_closed; guaranteed by resolve, C06_spread_rule)'],
+    ),
 }
